@@ -109,7 +109,7 @@ def set_enabled(component, enabled=True):
     if isinstance(component, six.string_types):
         component = get_component(component)
 
-    if component:
+    if component is not None:
         ENABLED[component] = enabled
 
 
